@@ -191,7 +191,7 @@ def run(cx):
             rr = cx.retval(cl)
             if match('(call f64::min (add (call *x_min _) (mul (cast f64 (param 2)) (field cap:step_size (param 1)))) (call *x_max _))', rr) is not None:
                 okn = True
-        steps = [simplify(b.dag().rvalue(s['rv'], bi, si)) for bi in b.live for si, s in enumerate(b.blocks[bi]['stmts']) if b.local_name(s['pl']['l']) == 'step_size' and not s['pl']['p']]
+        steps = [simplify(b.dag().rvalue(s['rv'], bi, si)) for bi in b.live for si, s in enumerate(b.blocks[bi]['stmts']) if not s['pl']['p'] and s['rv']['k'] == 'bin']
         oks = any(match('(div (sub (call *x_max (param self)) (call *x_min (param self))) (sub (cast f64 (param n)) 1.0))', v) is not None for v in steps)
         cx.ob('EXPR', 'Series1::resampled_n:contract', okn and oks, 'resampled_n lays n abscissae x_min + i*(x_max-x_min)/(n-1) (clamped to x_max): n-1 equal steps', where=b.file)
 
@@ -224,18 +224,30 @@ def run(cx):
             okr = okr and ((match('(param i0)', a) is not None and c[0] != 'param') or (match('(param i1)', c) is not None and a[0] != 'param'))
         cx.ob('GUARD', 'Rdp::simplify:recursion', okr, 'recursion happens only under max_dist > tol, on (i0, max_i) and (max_i, i1)', where=b.file, found=str(sorted(spans)))
         # the farthest-point search ranges over the open interval and measures against the chord through the kept ends
-        sp = b.calls('*SurfacePoint::new_normalize')
+        # the chord line is built either in an `if` or in the closure of `(cond).then(|| ..)`: in both cases one construction with its condition
+        from vpa import inline as IN, guards as GG
         CHORD = '(call OPoint::sub (index (self points) (param i1)) (index (self points) (param i0)))'
-        oksp = len(sp) == 1 and match('(index (self points) (param i0))', cx.arg(sp[0], 0)) is not None and match(CHORD, cx.arg(sp[0], 1)) is not None
+        cands = []      # (value DAG, literals that hold where it is built)
+        for s_ in b.calls('*SurfacePoint::new_normalize'):
+            cands.append((cx.call(s_), list(cx.guards(b, s_.bb))))
+        for s_ in b.calls('bool::then'):
+            d_ = cx.call(s_)
+            if len(d_) == 4 and d_[3][0] == 'closure':
+                v_ = IN.closure_apply(cx.facts, d_[3], ())
+                if v_ is not None and match('(call *SurfacePoint::new_normalize _ _)', v_) is not None:
+                    cands.append((v_, list(cx.guards(b, s_.bb)) + GG.norm_literal(d_[2], True)))
+        oksp = len(cands) == 1 and match(f'(call *SurfacePoint::new_normalize (index (self points) (param i0)) {CHORD})', cands[0][0]) is not None
         cx.ob('EXPR', 'Rdp::simplify:chord', oksp, 'deviations are measured from the line through points[i0] and points[i1]', where=b.file)
         # a closed curve hands coincident end points to the first pass: the chord direction may be normalised only when the
         # chord is non-degenerate (otherwise every deviation is NaN, nothing is kept and the rebuilt curve has one vertex)
-        okg = len(sp) == 1 and (cx.guarded(b, sp[0].bb, f'(lt 0.0 (call Matrix::norm {CHORD}))', True) is not None or
-                                cx.guarded(b, sp[0].bb, '(lt _ (call *points::dist (index (self points) (param i0)) (index (self points) (param i1))))', True) is not None or
-                                cx.guarded(b, sp[0].bb, f'(lt _ (call Matrix::norm {CHORD}))', True) is not None)
+        def _g(pat):
+            return any(p and match(pat, a) is not None for a, p in cands[0][1])
+        okg = len(cands) == 1 and (_g(f'(lt 0.0 (call Matrix::norm {CHORD}))') or
+                                   _g('(lt _ (call *points::dist (index (self points) (param i0)) (index (self points) (param i1))))') or
+                                   _g(f'(lt _ (call Matrix::norm {CHORD}))'))
         cx.ob('GUARD', 'Rdp::simplify:degenerate-chord', okg,
               'the chord through the two kept end points is normalised only when it has non-zero length (closed curves start with coincident end points); otherwise another measure is used',
-              where=sp[0] if sp else b.file, found='; '.join(cx.show_guards(b, sp[0].bb))[:300] if sp else None)
+              where=b.file, found='; '.join(('' if p else 'NOT ') + show(a) for a, p in cands[0][1])[:300] if cands else None)
         # the quantity compared with the tolerance is a plain distance (same units as tol): |projection(p_i) - p_i|
         devs = [cx.call(c) for c in b.calls('Matrix::norm|Matrix::magnitude|Matrix::norm_squared|*points::dist')]
         devs = [d for d in devs if find('(itervar _)', d) is not None]      # the per-vertex measures (the chord-length test is not one)
